@@ -17,7 +17,7 @@ for f in sorted(glob.glob("replays/C05-*.json")):
     seen.add(cls)
     slug = re.sub(r"[^A-Za-z0-9]+", "-", cls)[:60].strip("-")
     printed = d["detail"].split("; printed=")[1]
-    out.append({"property": "C05", "id": "C05-" + slug,
+    out.append({"property": "C05", "id": "C05-%02d-%s" % (len(out) + 1, slug),
                 "match": {"kind": "roundtrip", "detail_re": "^class=" + re.escape(cls) + "; "},
                 "what": "round trip fails (%s); smallest source in the elk tree: %r prints as %s" % (cls.split(":")[0], src[:120], printed[:120])})
 out.append({"property": "C05", "id": "C05-keyword-bang-paren",
